@@ -17,6 +17,30 @@ SOURCES = ('inline', 'dict', 'struct', 'hdf5')
 
 @st.composite
 def strategy(draw, cls=None):
+    if cls == 'many-rows':
+        # more rows than any plausible internal block (1024, 2048, 4096), with input chunk sizes that do not divide
+        # such a block and windows that start or end next to a block boundary
+        prof = Profile(vrl=[8192], max_frames=1, max_channels=2, max_rows=4, max_width=2, casts=False, units=False,
+                       sources=('struct',), upper_names=True, index_types=False, dtypes=['u1', 'i2', 'f4'])
+        spec = draw(file_specs(prof))
+        spec['write'].pop('source', None)
+        rows = draw(st.sampled_from([1025, 1100, 2049, 2500, 4097])) + draw(st.integers(0, 300))
+        for op in spec['lfs'][0]['ops']:
+            if op['t'] == 'channel' and op.get('data') is not None:
+                d = op['data']
+                op['data'] = {'dt': d['dt'], 'shape': [rows] + list(d['shape'][1:]),
+                              'pat': [draw(st.integers(0, 127)) * 2 + 1, draw(st.integers(0, 255))]}
+        w = spec['write']
+        ics = draw(st.sampled_from([None, 7, 100, 333, 1000, 1023, 1025, 2047, 3000]))
+        if ics is not None:
+            w['ics'] = ics
+        if draw(st.booleans()):
+            w['from'] = draw(st.sampled_from([1, 5, 1000, 1023, 1024, 1030]))
+            if draw(st.booleans()):
+                w['to'] = rows - draw(st.integers(0, 40))
+        spec['opts'] = {'perm': draw(st.sampled_from([None, 'rev'])), 'extra': []}
+        spec['many_rows'] = True
+        return spec
     if cls == 'permuted-exact':
         # one frame; the structured array has exactly the frame's fields, under the channels' own names, in another order
         prof = Profile(vrl=[256, 8192], max_frames=1, max_channels=4, max_rows=16, max_width=3, casts=True,
@@ -92,7 +116,8 @@ class C11(Property):
                  "Hypothesis-generated frames are written inline, from a dict, from a structured array (fast and copy "
                  "path) and from an HDF5 file with permuted fields, extra datasets and dataset-name mappings; files must "
                  "be byte-identical, and a windowed write must equal the write of the pre-sliced arrays")
-    rule = ("cases: 1-2 frames (equal row counts) x 4 routes x source permutation / extra datasets / dataset_name "
+    rule = ("cases: 1-2 frames (equal row counts; one class with 1025..4400 rows, input chunk sizes that do not divide a "
+            "power of two and windows next to row 1024) x 4 routes x source permutation / extra datasets / dataset_name "
             "mappings (plain, nested HDF5 groups, leading slash) x window 0 <= from < to <= rows (or open) x input chunk "
             "size; non-trivial = >= 2 routes compared with a permuted source, or a window with from_idx > 0")
 
@@ -100,7 +125,7 @@ class C11(Property):
         n = 1600 if ctx.tier == 'quick' else 16000
         from vf.core import stratified
         return [('routes', strategy(), (n * 5 // 8) // ctx.nshards)] + \
-            stratified('class', lambda c: strategy(c), ['plain', 'crossed', 'permuted-exact'], n * 3 // 8, ctx)
+            stratified('class', lambda c: strategy(c), ['plain', 'crossed', 'permuted-exact', 'many-rows'], n * 3 // 8, ctx)
 
     def run(self, spec, ctx):
         dw.check_import_location()
@@ -109,6 +134,7 @@ class C11(Property):
         plain = spec.pop('plain', False)
         crossed = spec.pop('crossed', False)
         permuted_exact = spec.pop('permuted_exact', False)
+        many_rows = spec.pop('many_rows', False)
         w = spec['write']
         window = bool(w.get('from')) or w.get('to') is not None
         labels = ['window' if window else 'no-window']
@@ -118,6 +144,8 @@ class C11(Property):
             labels.append('crossed-dataset-names')
         if permuted_exact:
             labels.append('exactly-the-frames-fields-permuted')
+        if many_rows:
+            labels.append('rows>1024')
         if w.get('from'):
             labels.append('from>0')
         if opts.get('perm'):
